@@ -81,6 +81,9 @@ Proof. unfold row_ok, erase_td. row_tac. Qed.
 Lemma ok_erase_tu : row_ok erase_tu.
 Proof. unfold row_ok, erase_tu. row_tac. Qed.
 
+Lemma ok_choke_reqs : row_ok choke_reqs.
+Proof. unfold row_ok, choke_reqs. row_tac. Qed.
+
 Lemma ok_seq2 : forall f g', row_ok f -> row_ok g' -> row_ok (seq2 f g').
 Proof.
   intros f g' Hf Hg r. unfold seq2.
@@ -102,7 +105,7 @@ Qed.
 Lemma ok_conn_msg_simple : forall m, row_ok (conn_msg_simple m).
 Proof.
   intros m. destruct m; cbn [conn_msg_simple]; try apply ok_id.
-  - repeat apply ok_seq2; auto using ok_rel_dc, ok_down_set_not_queued, ok_erase_td.
+  - repeat apply ok_seq2; auto using ok_rel_dc, ok_down_set_not_queued, ok_erase_td, ok_choke_reqs.
   - intro r. cbn [conn_msg_simple]. destruct (dint r); [apply (ok_down_set_queued r) | apply (ok_id r)].
   - apply ok_up_set_queued.
   - apply ok_up_set_not_queued.
